@@ -317,12 +317,12 @@ impl Prop for C05 {
                     }
                     return;
                 }
-                let mut pred = super::predict_seen(world, before, s, o, Reading::Condition);
+                let mut pred = super::predict_seen_allow(world, before, s, o, Reading::Condition, A_PRESCAN_UNIT | A_TSTQ);
                 if !pred.structural {
                     return;
                 }
                 // an empty unit that the implementation accepts: judge as if it were not there
-                if o.result.is_ok() {
+                if o.result.is_ok() || o.calls.len() > pred.calls.len() {
                     if let Some(pos) = s.msg.units.iter().position(|u| matches!(&u.hfault, Some((k, _)) if k == "empty_unit")) {
                         let mut s2 = s.clone();
                         s2.msg.units.remove(pos);
@@ -414,6 +414,13 @@ impl Prop for C05 {
                                     i,
                                     format!("message {}: formatter call #{} ({}) failed with {:?} but run returned Ok", msgd, fire_index(&s.fmt), fire.call, injected),
                                 )),
+                                // (the formatter refused to open the response unit and the handler
+                                // of that very unit was entered all the same: its own error may
+                                // be the one reported - no property says which of the two)
+                                Err(e)
+                                    if fire.call == "response_unit"
+                                        && o.calls.len() == fire.sim_calls_at_fire + 1
+                                        && o.calls.last().and_then(|c| c.ret.as_ref()) == Some(e) => {}
                                 Err(e) if !e.reports(&injected) => out.push(Finding::new(
                                     "C05.returns_first_error",
                                     "formatter_error_replaced",
@@ -422,7 +429,10 @@ impl Prop for C05 {
                                 )),
                                 Err(_) => {}
                             }
-                            if o.calls.len() != fire.sim_calls_at_fire {
+                            // (... the handler of the unit whose response unit could not be opened
+                            // may still be entered; no handler of a LATER unit)
+                            let entered_failing_unit = fire.call == "response_unit" && o.calls.len() == fire.sim_calls_at_fire + 1;
+                            if o.calls.len() != fire.sim_calls_at_fire && !entered_failing_unit {
                                 out.push(Finding::new(
                                     "C05.abort",
                                     "handler_ran_after_formatter_failure",
